@@ -22,8 +22,8 @@ ASSUMPTIONS = [
     'pairs give distinct nonces is HMAC pseudo-randomness and is not claimed',
     'modelled, not verified: SHA-256/HMAC transcriptions (validated against hashlib each run); public keys reach the '
     'model as the point Key(bytes).public_point() returns for SEC-shaped input (33 bytes 02/03, 65 bytes 04) — other '
-    'key spellings belong to C04/C12; private keys outside [1, n-1] belong to C04; hex digests with upper-case or '
-    'odd-length text are outside the model (bytes / lower-case hex only)',
+    'key spellings belong to C04/C12; private keys outside [1, n-1] belong to C04; digests given as odd-length hex '
+    'text are outside the model (bytes, lower-case hex, upper-case hex only)',
 ]
 RULE = ('boundary stream (keys, digests, nonces, r/s at 0,1,n-1,n,n+1,2^256-1, s around n/2 and 2^255 via solved '
         'digests, every hash-type byte, every DER length form) + valid signatures built by an independent signer + '
@@ -411,6 +411,11 @@ def gen_cases(rng, tier):
         d = rng.choice(EDGE_KEYS) if rng.random() < 0.15 else rand_key(rng)
         k = None if rng.random() < 0.4 else rand_key(rng)
         g.sign('sign_random', d, rand_digest(rng), k, rng.choice(HT_COMMON))
+    # the digest handed over as UPPER-CASE hex text (finding hex_case_changes_nonce)
+    for _ in range(12 if big else 4):
+        g.sign('sign_upper_hex', rand_key(rng), rand_digest(rng), None, 1, 'UK')
+        g.sign('sign_upper_hex_explicit_k', rand_key(rng), rand_digest(rng), rand_key(rng), 1, 'UK')
+    g.sign('sign_upper_hex', rand_key(rng), bytes(rng.randrange(256) for _ in range(40)), None, 1, 'UK')
     # private keys outside [1, n-1] (C04's domain; compared with the model, no verdict here).  0 and n are left
     # out: their public key is the point at infinity and Key.public() raises before any signing happens
     for d in [N + 1, N + 2, (1 << 256) - 1]:
@@ -642,6 +647,12 @@ def prop_check(c, out):
     return None
 
 
+def _upper_hex(c, io, mo):
+    t = c.req.split(' ')
+    return t[0] == 'sign' and t[5][0] == 'U' and t[3] == '-' and len(unhx(t[2])) <= 32 and \
+        any(ch in 'abcdef' for ch in t[2])
+
+
 def _sig_of(c):
     t = c.req.split(' ')
     if t[0] == 'verify':
@@ -675,6 +686,7 @@ def _unreduced_key(c, io, mo):
 
 KNOWN_CLASSES = {
     'der64_read_as_raw': _der64,
+    'hex_case_changes_nonce': _upper_hex,
     'lax_der_accepted': _lax_der,
     'pubkey_coordinate_unreduced': _unreduced_key,
 }
